@@ -608,4 +608,276 @@ theorem findArchitecture_none (f : PyFile) (start maxrange : Nat)
 
 end notfound
 
+/-! ### (6) `find_stage_prepend_append` on a file object with a largest seekable offset -/
+section limit
+open Gen.PeStruct C18
+
+theorem prependAppendAtG_seekSet (f : PyFile) (o : Nat) :
+    prependAppendAtG PyFile.seekSet f o = C18.prependAppendAt f o := rfl
+
+theorem seekL_bytesIO (L : Nat) (f : PyFile) (off : Int) (h : f.kind = .bytesIO) : seekL L f off = f.seekSet off := by
+  unfold seekL
+  rw [if_neg]
+  intro hc
+  rw [h] at hc
+  exact absurd hc.1 (by decide)
+
+theorem seekL_le (L : Nat) (f : PyFile) (off : Int) (h : off ≤ (L : Int)) : seekL L f off = f.seekSet off := by
+  unfold seekL
+  rw [if_neg]
+  intro hc
+  omega
+
+theorem leNat_lt (bs : Bytes) : leNat bs < 256 ^ bs.length := by
+  induction bs with
+  | nil => simp [leNat]
+  | cons b bs ih =>
+    simp only [leNat, List.length_cons, Nat.pow_succ]
+    have := b.toNat_lt
+    omega
+
+theorem fieldVal_u32_lt (buf : Bytes) (fld : Field) (hs : fld.signed = false) (h4 : fld.size = 4) :
+    fieldVal buf fld < 4294967296 := by
+  unfold fieldVal
+  simp only [hs, Bool.false_and, Bool.false_eq_true, if_false]
+  have h1 := leNat_lt (slice buf fld.off fld.size)
+  have h2 : (slice buf fld.off fld.size).length ≤ 4 := by rw [slice_length, h4]; omega
+  have h3 : 256 ^ (slice buf fld.off fld.size).length ≤ 256 ^ 4 := Nat.pow_le_pow_right (by omega) h2
+  have : (256 : Nat) ^ 4 = 4294967296 := by decide
+  omega
+
+theorem foldl_rawsize_le (secs : List Bytes) (init : Int) :
+    secs.foldl (fun acc s => acc + fieldVal s secSizeOfRawData) init ≤ init + 4294967296 * (secs.length : Int) := by
+  induction secs generalizing init with
+  | nil => simp
+  | cons s ss ih =>
+    simp only [List.foldl_cons, List.length_cons]
+    have h1 := ih (init + fieldVal s secSizeOfRawData)
+    have h2 := fieldVal_u32_lt s secSizeOfRawData rfl rfl
+    push_cast
+    omega
+
+theorem totalSize_le (opt : Bytes) (is64 : Bool) (secs : List Bytes) :
+    totalSize opt is64 secs ≤ 4294967296 * ((secs.length : Int) + 1) := by
+  unfold totalSize
+  have h1 := foldl_rawsize_le secs (fieldVal opt (optSizeOfHeaders is64))
+  have h2 : fieldVal opt (optSizeOfHeaders is64) < 4294967296 := by
+    cases is64
+    · exact fieldVal_u32_lt opt opt32SizeOfHeaders rfl rfl
+    · exact fieldVal_u32_lt opt opt64SizeOfHeaders rfl rfl
+  omega
+
+theorem readSections_some : ∀ (n : Nat) (g : PyFile) (secs : List Bytes) (g' : PyFile),
+    readSections n g = (some secs, g') →
+      secs.length = n ∧ g'.data = g.data ∧ g'.kind = g.kind ∧ g.pos + sectionSize * n ≤ max g.pos g.data.length := by
+  intro n
+  induction n with
+  | zero =>
+    intro g secs g' h
+    simp only [readSections, Prod.mk.injEq, Option.some.injEq] at h
+    obtain ⟨rfl, rfl⟩ := h
+    exact ⟨rfl, rfl, rfl, by omega⟩
+  | succ n ih =>
+    intro g secs g' h
+    unfold readSections at h
+    obtain ⟨hd, hk⟩ := readStruct_data g sectionSize
+    have hfst := readStruct_fst g sectionSize
+    rcases hr : readStruct g sectionSize with ⟨r1, g1⟩
+    rw [hr] at h hd hk hfst
+    simp only at hd hk hfst
+    cases r1 with
+    | none => simp at h
+    | some s =>
+      simp only at h
+      rcases hr2 : readSections n g1 with ⟨r2, g2⟩
+      rw [hr2] at h
+      cases r2 with
+      | none => simp at h
+      | some ss =>
+        simp only [Prod.mk.injEq, Option.some.injEq] at h
+        obtain ⟨rfl, rfl⟩ := h
+        obtain ⟨i1, i2, i3, i4⟩ := ih g1 ss g2 hr2
+        have hlen : g.pos + sectionSize ≤ g.data.length := by
+          unfold sliceOpt at hfst
+          split at hfst
+          · rename_i hl
+            rw [slice_length] at hl
+            have : sectionSize = 40 := rfl
+            omega
+          · cases hfst
+        have hpos : g1.pos = g.pos + sectionSize := by
+          obtain ⟨d, p, k⟩ := g
+          rw [readStruct_ok d p k sectionSize hlen] at hr
+          injection hr with _ hr
+          rw [← hr]
+        refine ⟨by simp [i1], by rw [i2, hd], by rw [i3, hk], ?_⟩
+        rw [hd, hpos] at i4
+        simp only [show sectionSize = 40 from rfl] at *
+        omega
+
+/-- `prependAppendAt` with its final seek as a parameter cannot raise as long as that seek accepts the (non-negative)
+offsets `mz_offset + size` that can arise from at most `|data| / 40` section headers -/
+theorem prependAppendAtG_ok (sk : PyFile → Int → Py (Nat × PyFile)) (f : PyFile) (o : Nat) (mz : Bytes)
+    (hmz : sliceOpt f.data o dosHeaderSize = some mz) (hpos : 0 < fieldVal mz dosLfanew)
+    (hsk : ∀ (g : PyFile) (t : Int), g.kind = f.kind → 0 ≤ t →
+      t ≤ (o : Int) + 4294967296 * ((f.data.length / 40 : Nat) + 1) → ∃ r, sk g t = .ok r) :
+    ∃ r, (prependAppendAtG sk f o).1 = .ok r := by
+  unfold prependAppendAtG
+  dsimp only
+  have hd : (if o > 0 then (some ((seekNat f 0).read (o : Int)).1, ((seekNat f 0).read (o : Int)).2) else (none, f)).2.data = f.data
+      ∧ (if o > 0 then (some ((seekNat f 0).read (o : Int)).1, ((seekNat f 0).read (o : Int)).2) else (none, f)).2.kind = f.kind := by
+    split <;> exact ⟨rfl, rfl⟩
+  generalize (if o > 0 then (some ((seekNat f 0).read (o : Int)).1, ((seekNat f 0).read (o : Int)).2) else (none, f)) = pf at hd
+  obtain ⟨hd, hk⟩ := hd
+  have h1 : (readStruct (seekNat pf.2 o) dosHeaderSize).1 = some mz := by rw [readStruct_at, hd]; exact hmz
+  obtain ⟨hd2, hk2⟩ := readStruct_data (seekNat pf.2 o) dosHeaderSize
+  rcases hr : readStruct (seekNat pf.2 o) dosHeaderSize with ⟨r1, f2⟩
+  rw [hr] at h1 hd2 hk2
+  simp only at h1 hd2 hk2
+  subst h1
+  simp only
+  obtain ⟨v, f3, hs, hd3, hk3⟩ := seekSet_ok_of_nonneg f2 (fieldVal mz dosLfanew + (o : Int) + 4) (by omega)
+  rw [hs]
+  simp only
+  obtain ⟨hd4, hk4⟩ := readStruct_data f3 fileHeaderSize
+  rcases hr4 : readStruct f3 fileHeaderSize with ⟨r4, f4⟩
+  rw [hr4] at hd4 hk4
+  simp only at hd4 hk4
+  cases r4 with
+  | none => exact ⟨_, rfl⟩
+  | some img =>
+    simp only
+    split
+    · obtain ⟨hd5, hk5⟩ := readStruct_data f4 (optSize (decide (fieldVal img fhMachine = (machineAmd64 : Int))))
+      rcases hr5 : readStruct f4 (optSize (decide (fieldVal img fhMachine = (machineAmd64 : Int)))) with ⟨r5, f5⟩
+      rw [hr5] at hd5 hk5
+      simp only at hd5 hk5
+      cases r5 with
+      | none => exact ⟨_, rfl⟩
+      | some opt =>
+        simp only
+        rcases hr6 : readSections (fieldVal img fhNumberOfSections).toNat f5 with ⟨r6, f6⟩
+        cases r6 with
+        | none => exact ⟨_, rfl⟩
+        | some secs =>
+          simp only
+          obtain ⟨hl6, hd6, hk6, hb6⟩ := readSections_some _ _ _ _ hr6
+          have hkind : f6.kind = f.kind := by
+            rw [hk6, hk5, hk4, hk3, hk2]; exact hk
+          have hdata : f5.data = f.data := by
+            rw [hd5, hd4, hd3, hd2]; exact hd
+          have hn : secs.length ≤ f.data.length / 40 := by
+            rw [hdata] at hb6
+            rw [show sectionSize = 40 from rfl] at hb6
+            rw [Nat.le_div_iff_mul_le (by omega), hl6]
+            omega
+          have ht0 := totalSize_nonneg opt (decide (fieldVal img fhMachine = (machineAmd64 : Int))) secs
+          have ht1 := totalSize_le opt (decide (fieldVal img fhMachine = (machineAmd64 : Int))) secs
+          have hn' : ((secs.length : Nat) : Int) ≤ ((f.data.length / 40 : Nat) : Int) := by exact_mod_cast hn
+          obtain ⟨r, hr⟩ := hsk f6 ((o : Int) + totalSize opt (decide (fieldVal img fhMachine = (machineAmd64 : Int))) secs)
+            hkind (by omega) (by
+              have : (4294967296 : Int) * ((secs.length : Int) + 1) ≤ 4294967296 * (((f.data.length / 40 : Nat) : Int) + 1) := by
+                apply Int.mul_le_mul_of_nonneg_left <;> omega
+              omega)
+          rw [hr]
+          simp only
+          split <;> exact ⟨_, rfl⟩
+    · exact ⟨_, rfl⟩
+
+theorem findStagePrependAppendL_ok (L : Nat) (f : PyFile)
+    (h : f.kind = .bytesIO ∨ f.data.length + 4294967296 * (f.data.length / 40 + 1) ≤ L) :
+    ∃ r, peFindStagePrependAppendL L f = .ok r := by
+  unfold peFindStagePrependAppendL
+  rcases hm : findMzOffset f (some 0) MAXRANGE with ⟨r, f1⟩
+  cases r with
+  | none => exact ⟨_, rfl⟩
+  | some o =>
+    obtain ⟨hd, hk, mz, hmz, hpos, _⟩ := findMz_some f (some 0) MAXRANGE o f1 hm
+    have ho : o + dosHeaderSize ≤ f.data.length := by
+      unfold sliceOpt at hmz
+      split at hmz
+      · rename_i hl; rw [slice_length] at hl
+        have h64 : dosHeaderSize = 64 := rfl
+        rw [h64] at hl ⊢
+        omega
+      · cases hmz
+    simp only
+    apply prependAppendAtG_ok (seekL L) f1 o mz (by rw [hd]; exact hmz) hpos
+    intro g t hg ht0 ht1
+    rw [hd] at ht1
+    cases h with
+    | inl hb =>
+      rw [seekL_bytesIO L g t (by rw [hg, hk]; exact hb)]
+      obtain ⟨v, g', hs, _⟩ := seekSet_ok_of_nonneg g t ht0
+      exact ⟨_, hs⟩
+    | inr hL =>
+      rw [seekL_le L g t (by omega)]
+      obtain ⟨v, g', hs, _⟩ := seekSet_ok_of_nonneg g t ht0
+      exact ⟨_, hs⟩
+
+/-- with an unlimited seek the refined model is the C18 model -/
+theorem peFindStagePrependAppendL_bytesIO (L : Nat) (f : PyFile) (h : f.kind = .bytesIO) :
+    ∃ r, peFindStagePrependAppendL L f = .ok r := findStagePrependAppendL_ok L f (Or.inl h)
+
+
+end limit
+
+/-! ### (7) how many candidates the detector can try -/
+section bounds
+open C09
+
+theorem counterAdd_length (c : List (Nat × Nat)) (k : Nat) : (counterAdd c k).length ≤ c.length + 1 := by
+  induction c with
+  | nil => simp [counterAdd]
+  | cons p rest ih =>
+    obtain ⟨k', n⟩ := p
+    simp only [counterAdd]
+    split
+    · simp
+    · simp only [List.length_cons]; omega
+
+theorem foldl_counterAdd_length (xs : List Nat) (c : List (Nat × Nat)) :
+    (xs.foldl counterAdd c).length ≤ c.length + xs.length := by
+  induction xs generalizing c with
+  | nil => simp
+  | cons x xs ih =>
+    simp only [List.foldl_cons, List.length_cons]
+    have := ih (counterAdd c x)
+    have := counterAdd_length c x
+    omega
+
+/-- the detector tries at most one candidate per marker hit and per size-consistent nonce offset -/
+theorem candidates_length (hits offs : List Nat) : (candidates hits offs).length ≤ hits.length + offs.length := by
+  unfold candidates
+  rw [List.length_map, (mostCommon_perm _).length_eq]
+  unfold counter
+  have := foldl_counterAdd_length (hits.map (· + 3) ++ offs) []
+  simpa using this
+
+theorem nonceLoop_length (rs : Int) (k : Nat) : ∀ (i : Nat) (f : PyFile) (l : List Nat) (f' : PyFile),
+    nonceLoop rs k i f = .ok (l, f') → l.length ≤ k := by
+  induction k with
+  | zero =>
+    intro i f l f' h
+    simp only [nonceLoop] at h
+    injection h with h
+    rw [← (Prod.mk.inj h).1]; simp
+  | succ k ih =>
+    intro i f l f' h
+    simp only [nonceLoop, PyFile.seekSet_ok] at h
+    split at h
+    · injection h with h
+      rw [← (Prod.mk.inj h).1]; simp
+    · split at h
+      · cases h
+      · rename_i rest f'' hrec
+        have := ih _ _ _ _ hrec
+        split at h
+        · injection h with h
+          rw [← (Prod.mk.inj h).1]; simp; omega
+        · injection h with h
+          rw [← (Prod.mk.inj h).1]; omega
+
+end bounds
+
 end C08
